@@ -28,7 +28,7 @@ Open Scope Z_scope.
    adapter object SHARED between sources) are source steps of the state machine whose rows are
    what the source model Pipeline/Source.v READS (seq_read of the modelled adapter over the
    modelled shards) - for `agree` - and, independently, the rows read off the file text - for
-   `prop`.  Collect modes 1000..1006 are the other public collect entry points; the sorted ones
+   `prop`.  Collect modes 1000..1008 are the other public collect entry points; the sorted ones
    are compared as multisets.  "digest" collects report (n, sum h, sum (i+1) h) of the rows. *)
 
 (* ---------- concrete element type and function tables (mirror of c08.rs Val) ---------- *)
@@ -319,6 +319,14 @@ Definition dec_pages (j : J) : option (list (list val)) :=
 Definition dec_custom (lm sp : Z) (pages : J) : option hcall :=
   match dec_pages pages with
   | Some pg =>
+      if (sp =? 3) && ((lm =? 0) || (lm =? 1)) then
+        (* the plain Vec of the rows behind the (shared) built-in adapter, length hidden or not *)
+        let ops := if lm =? 1 then impl_ops else nolen_ops impl_ops in
+        match read_ok (seq_read (mk_source (list val) ops (List.concat pg))) with
+        | Some dm => Some (HSrc dm (List.concat pg))
+        | None => None
+        end
+      else
       let sm := if sp =? 0 then Some SplitNone else if sp =? 1 then Some SplitPages
                 else if sp =? 2 then Some SplitChunks else None in
       match sm with
@@ -345,7 +353,7 @@ Definition dec_filecall (files : list file) (a f s : Z) : option hcall :=
     | None => None
     end
   else None.
-Definition mode_ok (m : Z) : bool := ((0 <=? m) && (m <=? 999)) || ((1000 <=? m) && (m <=? 1006)).
+Definition mode_ok (m : Z) : bool := ((0 <=? m) && (m <=? 999)) || ((1000 <=? m) && (m <=? 1008)).
 (* collect_seq_sorted / collect_par_sorted / collect_par_sorted_by_key *)
 Definition mode_sorted (m : Z) : bool := (1002 <=? m) && (m <=? 1004).
 
